@@ -1,0 +1,176 @@
+// Verification hooks (cargo feature `verif_hooks`): read-only rendering of the
+// interpreter state for external checkers. Nothing here is compiled unless
+// the feature is enabled and nothing here changes the state.
+use super::*;
+use std::fmt::Write;
+
+fn render_bits(s: &Xbitstr, out: &mut String) {
+    out.push_str("b'");
+    for b in s.bits() {
+        out.push(if b == 0 { '0' } else { '1' });
+    }
+    out.push('\'');
+}
+
+pub fn verif_render_cell(c: &Cell, out: &mut String) {
+    match c {
+        Cell::Nil => out.push_str("nil"),
+        Cell::Flag(x) => {
+            let _ = write!(out, "{}", x);
+        }
+        Cell::Int(i) => {
+            let _ = write!(out, "{}", i);
+        }
+        Cell::Real(r) => {
+            let _ = write!(out, "r{:016x}", r.to_bits());
+        }
+        Cell::Str(s) => {
+            let _ = write!(out, "{:?}", s.as_str());
+        }
+        Cell::Vector(v) => {
+            out.push('[');
+            for x in v.iter() {
+                out.push(' ');
+                verif_render_cell(x, out);
+            }
+            out.push_str(" ]");
+        }
+        Cell::Map(m) => {
+            out.push('{');
+            for (k, v) in m.iter() {
+                out.push(' ');
+                verif_render_cell(k, out);
+                out.push_str("=>");
+                verif_render_cell(v, out);
+            }
+            out.push_str(" }");
+        }
+        Cell::Fun(f) => {
+            let _ = write!(out, "{:?}", f);
+        }
+        Cell::Bitstr(s) => render_bits(s, out),
+        Cell::AnyRc(_) => out.push_str("any"),
+        Cell::WithTag(_) => {
+            out.push_str("(tagged ");
+            verif_render_cell(c.value(), out);
+            out.push_str(" ^{");
+            if let Some(tags) = c.tags() {
+                for (k, v) in tags.iter() {
+                    out.push(' ');
+                    verif_render_cell(k, out);
+                    out.push_str("=>");
+                    verif_render_cell(v, out);
+                }
+            }
+            out.push_str(" })");
+        }
+    }
+}
+
+fn render_cells<'a, I: Iterator<Item = &'a Cell>>(it: I) -> String {
+    let mut s = String::new();
+    for (i, c) in it.enumerate() {
+        if i > 0 {
+            s.push_str(" | ");
+        }
+        verif_render_cell(c, &mut s);
+    }
+    s
+}
+
+impl State {
+    /// Labelled sections describing the whole machine state.
+    pub fn verif_sections(&self) -> Vec<(&'static str, String)> {
+        let mut v: Vec<(&'static str, String)> = Vec::new();
+        v.push(("ip", format!("{}", self.ctx.ip)));
+        v.push(("data_stack", render_cells(self.data_stack.iter())));
+        v.push(("ds_base", format!("{}", self.ctx.ds_len)));
+        let mut rs = String::new();
+        for f in self.return_stack.iter() {
+            let _ = write!(
+                rs,
+                "(fn={} ret={} locals=[{}]) ",
+                f.fn_addr,
+                f.return_to,
+                render_cells(f.locals.iter())
+            );
+        }
+        v.push(("return_stack", rs));
+        let mut ls = String::new();
+        for l in self.loops.iter() {
+            let mut items = String::new();
+            verif_render_cell(&l.items, &mut items);
+            let _ = write!(ls, "({}..{} items={}) ", l.range.start, l.range.end, items);
+        }
+        v.push(("loops", ls));
+        v.push(("special", format!("{:?}", self.special)));
+        v.push(("heap", render_cells(self.heap.iter())));
+        v.push(("heap_len", format!("{}", self.heap.len())));
+        v.push(("mode", format!("{:?}", self.ctx.mode)));
+        v.push(("nested_len", format!("{}", self.nested.len())));
+        v.push(("flow_len", format!("{}", self.flow_stack.len())));
+        v.push(("input_len", format!("{}", self.input.len())));
+        v.push(("dict_len", format!("{}", self.dict.len())));
+        v.push(("code_len", format!("{}", self.code.len())));
+        v.push(("debug_map_len", format!("{}", self.debug_map.len())));
+        v.push(("insn_meter", format!("{}", self.insn_meter)));
+        v.push((
+            "reverse_log_len",
+            format!("{}", self.reverse_log.as_ref().map(|l| l.len()).unwrap_or(0)),
+        ));
+        v.push((
+            "ctx",
+            format!(
+                "cs={} rs={} fs={} ls={} ss={} di={}",
+                self.ctx.cs_len,
+                self.ctx.rs_len,
+                self.ctx.fs_len,
+                self.ctx.ls_len,
+                self.ctx.ss_ptr,
+                self.ctx.di_len
+            ),
+        ));
+        v
+    }
+
+    /// All sections as text, one `name: value` line each.
+    pub fn verif_dump(&self) -> String {
+        let mut s = String::new();
+        for (k, val) in self.verif_sections() {
+            let _ = writeln!(s, "{}: {}", k, val);
+        }
+        s
+    }
+
+    /// Name of the word the opcode at `ip` refers to (for reports only).
+    pub fn verif_opcode_at(&self, ip: usize) -> Option<String> {
+        self.code.get(ip).map(|op| self.fmt_opcode(ip, op))
+    }
+
+    /// Text of the token most recently fetched from the lexer (for reports only).
+    pub fn verif_last_token(&self) -> Option<String> {
+        self.last_token.as_ref().map(|t| t.as_str().to_string())
+    }
+
+    /// Configured limits (instructions, stack, heap).
+    pub fn verif_limits(&self) -> (Option<usize>, Option<usize>, Option<usize>) {
+        (self.insn_limit, self.stack_limit, self.heap_limit)
+    }
+
+    /// Dictionary entries as (name, kind) pairs, oldest first.
+    pub fn verif_dict(&self) -> Vec<(Xstr, &'static str)> {
+        self.dict
+            .iter()
+            .map(|e| {
+                let kind = match &e.entry {
+                    Entry::Constant(_) => "const",
+                    Entry::Variable(_) => "var",
+                    Entry::Function { immediate: true, .. } => "immediate",
+                    Entry::Function { xf: Xfn::Native(_), .. } => "native",
+                    Entry::Function { xf: Xfn::Interp(_), .. } => "word",
+                };
+                (e.name.clone(), kind)
+            })
+            .collect()
+    }
+}
